@@ -542,6 +542,15 @@ def count_cases(path, nontrivial):
     return n, len(seen)
 
 
+def get_lines(path, wanted):
+    res = {}
+    with open(path) as f:
+        for i, line in enumerate(f, 1):
+            if i in wanted:
+                res[i] = [int(x) for x in line.split()]
+    return res
+
+
 def get_line(path, lineno):
     with open(path) as f:
         for i, line in enumerate(f, 1):
@@ -644,18 +653,24 @@ def standard_flow(ctx, spec):
     desc = spec.get("describe") or (lambda toks: toks)
     reported = 0
     if res and res["M"]:
+        want = {ln for ln, _ in res["M"][:50000]}
+        lines = get_lines(casefile, want)
+        cset = {ln for ln, _ in res["C"]}
+        fails = sorted(((ln, d) for ln, d in res["M"] if ln in lines), key=lambda x: (len(lines[x[0]]), x[0]))
         seen = set()
-        for ln, d in res["M"]:
-            toks = get_line(casefile, ln)
+        for ln, d in fails:
+            toks = lines[ln]
             k = key("M", toks, d)
             if k in seen:
                 continue
             seen.add(k)
-            if reported < 5 or any(kk.get("key") == k for kk in ctx.known):
+            is_known = any(kk.get("key") == k and kk.get("status") == "finding" for kk in ctx.known)
+            if reported < 3 or is_known:
                 if ctx.report_failure(k, what("M", toks, d), {
                         "kind": "property fails on the implementation's own trace (monitor)",
                         "case": toks, "decoded": desc(toks), "diag": d,
-                        "conformance_mismatch_too": any(l2 == ln for l2, _ in res["C"])}):
+                        "failing_cases_total": len(res["M"]),
+                        "conformance_mismatch_too": ln in cset}):
                     reported += 1
     broken = ctx.failed_obligations()
     cmis = res["C"] if res else []
